@@ -321,6 +321,27 @@ fn get_best_move_score(
     Some(alpha)
 }
 
+/// True if `back` undoes the quiet move `forth`: the same piece returns to its square
+fn is_reversal(forth: Move, back: Move) -> bool {
+    match (forth, back) {
+        (
+            Move::Normal {
+                piece: piece_forth,
+                start: start_forth,
+                end: end_forth,
+                captured_piece: None,
+            },
+            Move::Normal {
+                piece: piece_back,
+                start: start_back,
+                end: end_back,
+                captured_piece: None,
+            },
+        ) => piece_forth == piece_back && start_forth == end_back && end_forth == start_back,
+        _ => false,
+    }
+}
+
 /// This function is the entry point for the search algorithm
 /// It returns the best move, the score of the best move
 /// and a flag indicating if there is only one move available
@@ -344,12 +365,17 @@ pub fn get_best_move_entry(
     let mut best_move = None;
     let mut best_score = Score::MIN + 1;
 
-    // Prevent threefold repetition
-    if game.move_stack().len() >= 5
-        && game.move_stack()[game.move_stack().len() - 1]
-            == game.move_stack()[game.move_stack().len() - 5]
+    // Prevent threefold repetition: the opponent repeated a move and the last four plies
+    // were two quiet moves and their reversals, so the position of four plies ago is back
+    // and the move made then would repeat once more. (Comparing the opponent's moves alone
+    // also fired when nothing was repeated and could drop the only mating move.)
+    let stack = game.move_stack();
+    if stack.len() >= 5
+        && stack[stack.len() - 1] == stack[stack.len() - 5]
+        && is_reversal(stack[stack.len() - 4], stack[stack.len() - 2])
+        && is_reversal(stack[stack.len() - 5], stack[stack.len() - 3])
     {
-        let repetition_move = game.move_stack()[game.move_stack().len() - 4];
+        let repetition_move = stack[stack.len() - 4];
 
         for (index, &_move) in moves.iter().enumerate() {
             if repetition_move == _move {
